@@ -375,7 +375,12 @@ impl std::fmt::Display for FeelNumber {
 impl Jsonify for FeelNumber {
   /// Converts [FeelNumber] to its `JSON` representation.
   fn jsonify(&self) -> String {
-    scientific_to_plain(dec_to_string(&self.0))
+    if dec_is_finite(&self.0) {
+      scientific_to_plain(dec_to_string(&self.0))
+    } else {
+      // infinities and NaN have no `JSON` representation
+      "null".to_string()
+    }
   }
 }
 
